@@ -1900,6 +1900,8 @@ fn scalar_convert_to_comparable(depth: u8, jentry: &JEntry, value: &[u8], buf: &
                     let length = jentry.length as usize;
                     if let Ok(num) = Number::decode(&value[..length]) {
                         let n = num.as_f64().unwrap();
+                        // `-0.0` and `0.0` compare equal, give both the key of `0.0`.
+                        let n = if n == 0.0 { 0.0 } else { n };
                         // https://github.com/rust-lang/rust/blob/9c20b2a8cc7588decb6de25ac6a7912dcef24d65/library/core/src/num/f32.rs#L1176-L1260
                         let s = n.to_bits() as i64;
                         let v = s ^ (((s >> 63) as u64) >> 1) as i64;
